@@ -92,8 +92,17 @@ func runLifetime(c C13Case, ev *Evid) (fs []Finding) {
 	var err error
 	expectFail := true
 	switch c.Mode {
-	case "healthy-open", "healthy-open-spawn", "healthy-open-unprivileged", "healthy-open-double-close", "healthy-open-mode0444", "healthy-open-synced":
+	case "healthy-open", "healthy-open-spawn", "healthy-open-unprivileged", "healthy-open-double-close", "healthy-open-mode0444", "healthy-open-synced", "healthy-open-after-options":
 		os.WriteFile(path, valid, 0644)
+		if c.Mode == "healthy-open-after-options" {
+			// an earlier Open of ANOTHER file with non-default options (unlocked, read-only) in this process must
+			// not change what a later default Open does
+			other := filepath.Join(dir, "optioned.wsp")
+			os.WriteFile(other, valid, 0644)
+			if d, e := openWT(other, wt.WithoutFlock(), wt.WithOpenFileFlag(os.O_RDONLY)); e == nil {
+				d.Close()
+			}
+		}
 		if c.Mode == "healthy-open-mode0444" {
 			// a file without any write-permission bit (an archived metric): the checks run as root, whose default
 			// Open still gets a writable descriptor - and must still hold the file exclusively
@@ -583,7 +592,7 @@ func runC13(c C13Case, ev *Evid) []Finding {
 func genC13(t *rapid.T) C13Case {
 	if rapid.IntRange(0, 9).Draw(t, "kind") < 8 {
 		c := C13Case{Kind: "lifetime"}
-		c.Mode = rapid.SampledFrom([]string{"healthy-open", "healthy-create", "healthy-open-unprivileged", "healthy-open-double-close", "healthy-open-mode0444", "healthy-open-synced", "open-empty", "open-truncated", "open-truncated", "open-corrupt", "open-corrupt", "open-short-body", "create-readonly-flag", "create-exists"}).Draw(t, "mode")
+		c.Mode = rapid.SampledFrom([]string{"healthy-open", "healthy-create", "healthy-open-unprivileged", "healthy-open-double-close", "healthy-open-mode0444", "healthy-open-synced", "healthy-open-after-options", "open-empty", "open-truncated", "open-truncated", "open-corrupt", "open-corrupt", "open-short-body", "create-readonly-flag", "create-exists"}).Draw(t, "mode")
 		switch c.Mode {
 		case "open-truncated":
 			c.Cut = rapid.IntRange(1, 27).Draw(t, "cut")
